@@ -17,16 +17,17 @@
 (*                                                                         *)
 (* The handler goroutine mutates the Response of the ctx it was given at    *)
 (* any time, also after the timeout.  Contents are abstract values:         *)
-(*   <<"clean">>, <<"H", conn, idx, k>> (k-th mutation by the handler of    *)
-(*   request idx of conn), <<"TO", conn, idx>>, <<"429", conn, idx>>.        *)
+(*   <<"clean",0,0,0>>, <<"H", conn, idx, k>> (k-th mutation by the handler *)
+(*   of request idx of conn), <<"TO", conn, idx, 0>>, <<"429", conn, idx, 0>>.*)
 (***************************************************************************)
 EXTENDS Integers, Sequences, FiniteSets, TLC
 
-CONSTANTS Conns, MaxReq, Concurrency, MaxWrites, Ctxs, AllowSelf, NoCtx,
+CONSTANTS Conns, MaxReq, Concurrency, MaxWrites, Ctxs, NoCtx,
+          Kinds,     \* request kinds used: subset of {"wrapped", "self"}
           PickAny   \* TRUE: any pooled ctx may be handed out; FALSE: the smallest one (Ctxs must be integers)
 
 Reqs == Conns \X (1..MaxReq)
-Clean == <<"clean">>
+Clean == <<"clean", 0, 0, 0>>
 
 VARIABLES
   spc,       \* [Conns -> {"new","idle","try","wait","self","after","write","closed"}] serve loop position
@@ -47,7 +48,7 @@ VARIABLES
 
 vars == <<spc, n, cur, free, abandoned, tokens, h, tok, hctx, wr, wrRet, decided, resp, tresp, wire>>
 
-None == <<"none">>
+None == <<"none", 0, 0, 0>>
 R(c) == <<c, n[c]>>
 
 Init ==
@@ -69,7 +70,7 @@ Open(c, x) ==
 
 \* next request read; s.Handler(ctx) called: a wrapped handler or one that times itself out
 Start(c, kind) ==
-  /\ spc[c] = "idle" /\ n[c] < MaxReq /\ kind \in {"wrapped", "self"} /\ (kind = "self" => AllowSelf)
+  /\ spc[c] = "idle" /\ n[c] < MaxReq /\ kind \in Kinds
   /\ n' = [n EXCEPT ![c] = @ + 1]
   /\ spc' = [spc EXCEPT ![c] = IF kind = "wrapped" THEN "try" ELSE "self"]
   /\ UNCHANGED <<cur, free, abandoned, tokens, h, tok, hctx, wr, wrRet, decided, resp, tresp, wire>>
@@ -86,7 +87,7 @@ EnterOk(c) ==
 \* no token: ctx.Error(msg, 429)
 Enter429(c) ==
   /\ spc[c] = "try" /\ tokens >= Concurrency
-  /\ resp' = [resp EXCEPT ![cur[c]] = <<"429", c, n[c]>>]
+  /\ resp' = [resp EXCEPT ![cur[c]] = <<"429", c, n[c], 0>>]
   /\ decided' = [decided EXCEPT ![R(c)] = "429"]
   /\ spc' = [spc EXCEPT ![c] = "after"]
   /\ UNCHANGED <<n, cur, free, abandoned, tokens, h, tok, hctx, wr, wrRet, tresp, wire>>
@@ -101,7 +102,7 @@ SeeDone(c) ==
 \* select: <-timer.C: ctx.TimeoutErrorWithCode(msg, code) stores a private copy of the timeout response
 TimerFire(c) ==
   /\ spc[c] = "wait"
-  /\ tresp' = [tresp EXCEPT ![cur[c]] = <<"TO", c, n[c]>>]
+  /\ tresp' = [tresp EXCEPT ![cur[c]] = <<"TO", c, n[c], 0>>]
   /\ decided' = [decided EXCEPT ![R(c)] = "timeout"]
   /\ spc' = [spc EXCEPT ![c] = "after"]
   /\ UNCHANGED <<n, cur, free, abandoned, tokens, h, tok, hctx, wr, wrRet, resp, wire>>
@@ -110,27 +111,23 @@ TimerFire(c) ==
 SelfTimeout(c) ==
   /\ spc[c] = "self"
   /\ h' = [h EXCEPT ![R(c)] = "running"] /\ hctx' = [hctx EXCEPT ![R(c)] = cur[c]]
-  /\ tresp' = [tresp EXCEPT ![cur[c]] = <<"TO", c, n[c]>>]
+  /\ tresp' = [tresp EXCEPT ![cur[c]] = <<"TO", c, n[c], 0>>]
   /\ decided' = [decided EXCEPT ![R(c)] = "timeout"]
   /\ spc' = [spc EXCEPT ![c] = "after"]
   /\ UNCHANGED <<n, cur, free, abandoned, tokens, tok, wr, wrRet, resp, wire>>
 
 \* timeoutResponse # nil: continue with a fresh ctx carrying a copy of the timeout response
-AfterHandler(c, x) ==
-  /\ spc[c] = "after"
-  /\ IF tresp[cur[c]] # None
-     THEN /\ x \in free
-          /\ cur' = [cur EXCEPT ![c] = x] /\ free' = free \ {x}
-          /\ abandoned' = abandoned \cup {cur[c]}
-          /\ resp' = [resp EXCEPT ![x] = tresp[cur[c]]]
-     ELSE /\ x = cur[c]
-          /\ UNCHANGED <<cur, free, abandoned, resp>>
+Swap(c, x) ==
+  /\ spc[c] = "after" /\ tresp[cur[c]] # None /\ x \in free
+  /\ cur' = [cur EXCEPT ![c] = x] /\ free' = free \ {x}
+  /\ abandoned' = abandoned \cup {cur[c]}
+  /\ resp' = [resp EXCEPT ![x] = tresp[cur[c]]]
   /\ spc' = [spc EXCEPT ![c] = "write"]
   /\ UNCHANGED <<n, tokens, h, tok, hctx, wr, wrRet, decided, tresp, wire>>
 
 \* writeResponse(ctx) ; ctx.Response.Reset()
 WriteResp(c) ==
-  /\ spc[c] = "write"
+  /\ spc[c] = "write" \/ (spc[c] = "after" /\ tresp[cur[c]] = None)
   /\ wire' = [wire EXCEPT ![c] = Append(@, resp[cur[c]])]
   /\ resp' = [resp EXCEPT ![cur[c]] = Clean]
   /\ spc' = [spc EXCEPT ![c] = "idle"]
@@ -173,8 +170,7 @@ PoolChoices == IF PickAny \/ free = {} THEN free ELSE {CHOOSE x \in free : \A y 
 
 Next ==
   \/ \E c \in Conns :
-       \/ \E x \in PoolChoices : Open(c, x) \/ AfterHandler(c, x)
-       \/ AfterHandler(c, cur[c])
+       \/ \E x \in PoolChoices : Open(c, x) \/ Swap(c, x)
        \/ Start(c, "wrapped") \/ Start(c, "self")
        \/ EnterOk(c) \/ Enter429(c) \/ SeeDone(c) \/ TimerFire(c) \/ SelfTimeout(c) \/ WriteResp(c) \/ CloseConn(c)
   \/ \E r \in Reqs : HandlerWrite(r) \/ HandlerDone(r) \/ TokenRelease(r)
@@ -193,10 +189,10 @@ TypeOK ==
 \* what the client must receive for request <<c, i>>
 Expected(c, i) ==
   LET r == <<c, i>> IN
-  CASE decided[r] = "timeout" -> <<"TO", c, i>>
-    [] decided[r] = "429" -> <<"429", c, i>>
+  CASE decided[r] = "timeout" -> <<"TO", c, i, 0>>
+    [] decided[r] = "429" -> <<"429", c, i, 0>>
     [] decided[r] = "handler" -> IF wrRet[r] = 0 THEN Clean ELSE <<"H", c, i, wrRet[r]>>
-    [] OTHER -> <<"undecided">>
+    [] OTHER -> <<"undecided", c, i, 0>>
 
 \* every response on the wire is exactly the one decided for its request: the timeout response for a
 \* timed-out request, the handler's own final response otherwise, never anything a handler wrote
